@@ -225,6 +225,21 @@ def run(ctx, rep, tier):
             mo, mf = model.resolve_method(cl, "modifies")
             okm = mf is not None and all(f"self.{o_}" in ast.unparse(mf) for o_ in outs)
             rep.check(okm, "C01.l", f"{cl}.modifies", f"{cl}: modifies() reports {outs}", f"{cl} writes {outs} but modifies() (resolved in {mo}) does not report it")
+    # what an expression reads includes what its sub-expressions read (an index, an operand)
+    for cl in [c for c in model.concrete_subclasses("IntegerExpr") if c != "IntegerExpr"]:
+        init = model.classes[cl].methods.get("__init__")
+        if init is None:
+            continue
+        subs = [a.arg for a in init.args.args[1:] if a.annotation is not None and "IntegerExpr" in ast.unparse(a.annotation) and "List" not in ast.unparse(a.annotation)]
+        lists = [a.arg for a in init.args.args[1:] if a.annotation is not None and "List[IntegerExpr]" in ast.unparse(a.annotation)]
+        if not subs and not lists:
+            continue
+        ao, af = model.resolve_method(cl, "accesses")
+        asrc = ast.unparse(af) if af is not None else ""
+        okx = ao not in (None, "IntegerExpr") and (all(f"self.{x}.accesses()" in asrc for x in subs) if ao == cl else True) and \
+            (("for i in self.children" in asrc and "i.accesses()" in asrc) if (lists or ao == "MathIntegerExpr") else True)
+        rep.check(okx, "C01.l", f"{cl}.accesses", f"{cl}: accesses() covers its sub-expressions {subs + lists}",
+                  f"{cl}.accesses() (resolved in {ao}) leaves out what {subs + lists} read: `c = [s[i]]; i = [0];` after /x+/ is no longer seen as a write-after-read group and is repeated per byte")
     rep.check(model.has("Action.all_subactions", "for i in self.embeds():\n    children.extend(i.all_subactions())") and model.has("ConditionalAction.embeds", "return list(itertools.chain(*self.sub_actions.values()))"),
               "C01.l", "Action.all_subactions", "sub-actions of conditional actions are visible to the group test", "embedded actions are no longer enumerated")
 
